@@ -68,6 +68,18 @@ def _conf_worker(arg):
         return idx, {"samples": 0, "compared": 0, "disagreements": [], "skipped": f"conformance harness failed: {type(e).__name__}: {e}"}
 
 
+def _search_worker(arg):
+    idx, seed, tries = arg
+    oset = _OSETS[idx]
+    try:
+        from pyvc import replay
+        import logging
+        logging.disable(logging.CRITICAL)
+        return idx, replay.search_native(oset.name, seed, tries)
+    except Exception as e:  # noqa: BLE001
+        return idx, {"reproduced": False, "note": f"native search failed to run: {type(e).__name__}: {e}", "tries": 0}
+
+
 def fallback_solve(smt2, timeout_s=60):
     """Try the other installed solvers on an obligation z3 5.1 left open. Returns (result, backend)."""
     # z3's simplifier rewrites seq.nth into its internal seq.nth_i / seq.nth_u pair (in-bounds / out-of-bounds
@@ -178,6 +190,19 @@ def main(argv=None):
             for d in cr["disagreements"]:
                 conf["disagreements"].append({"oset": _OSETS[idx].name, **d})
 
+    # thorough tier: independent bounded native search - the executable contracts run on the real package
+    # (CPython) on random inputs inside the declared ranges; a failing input is a violation with a native replay
+    native_search = {"osets": 0, "inputs": 0, "evaluated": 0, "failures": []}
+    if a.tier == "thorough":
+        with ctx.Pool(min(a.jobs, len(_OSETS))) as pool:
+            for idx, sr in pool.imap_unordered(_search_worker, [(i, seed + 1000, 400) for i in range(len(_OSETS))]):
+                if sr.get("tries"):
+                    native_search["osets"] += 1
+                    native_search["inputs"] += sr["tries"]
+                    native_search["evaluated"] += sr.get("evaluated", 0)
+                if sr.get("reproduced"):
+                    native_search["failures"].append({"oset": _OSETS[idx].name, "failed": sr.get("failed"), "inputs": sr.get("inputs")})
+
     # second chance for obligations z3 5.1 left open
     for rj in results:
         for name, ob in rj["obligations"].items():
@@ -251,6 +276,16 @@ def main(argv=None):
                     continue
                 violations.append((rj, name, ob))
 
+    for nf in native_search["failures"]:
+        # a natively failing obligation that the verifier did not refute (or that is not a recorded finding)
+        for oname in nf["failed"] or []:
+            if _match_known(known, prop, nf["oset"], oname) is not None:
+                continue
+            already = any(rj["name"] == nf["oset"] and n == oname for rj, n, _ in violations)
+            if not already:
+                rj = next(r for r in results if r["name"] == nf["oset"])
+                violations.append((rj, oname, {"status": "failed", "model": nf["inputs"], "backend": "native-search", "secs": 0,
+                                               "paths": 0, "kind": "post", "detail": "found by the bounded native search of the thorough tier"}))
     for d in conf["disagreements"][:5]:
         errors.append((d["oset"], "interpreter conformance: pyvc and CPython disagree on " + json.dumps(d, default=str)[:400]))
     exit_code = 0
@@ -304,6 +339,9 @@ def main(argv=None):
                                   "sets": [{"name": rj["name"], "bound": rj["bounded"]} for rj in results if rj["bounded"]]},
             "known_findings_hit": [full for full, _ in known_hits],
             "refuted_obligations_not_counted_above": len(known_hits) + len(violations),
+            "bounded_native_search": {"obligation_sets": native_search["osets"], "random_inputs_run_on_the_real_package": native_search["inputs"],
+                                      "obligations_evaluated_natively": native_search["evaluated"],
+                                      "failing_inputs": len(native_search["failures"])},
             "interpreter_conformance": {"obligation_sets_with_native_reading": conf["osets"], "random_inputs": conf["samples"],
                                         "obligation_values_compared_cpython_vs_pyvc": conf["compared"],
                                         "disagreements": len(conf["disagreements"])},
